@@ -124,8 +124,30 @@ func c15RPCRound(r *verifkit.Run, round, nOps, nSubs int) {
 	// ---- requests
 	ctx := context.Background()
 	accepted := 0
+	// in one round of four: entities with data around and above the journal page budget.  They are
+	// written directly through DBV2.SaveEntity (RawEditEntity refuses requests above 1 MiB, but the
+	// journal must serve whatever the table holds); the subscribers must get past them.
+	bigAt := map[int]int{}
+	if round%4 == 1 {
+		for i, size := range c15BigSizes() {
+			bigAt[5+i*(nOps-10)/3+rnd.IntN(3)] = size
+		}
+		r.Count("rpc.rounds_with_page_budget_sized_entities", 1)
+	}
 	for op := 0; op < nOps; op++ {
 		clk.Add(int64(rnd.IntN(3)) * int64(rnd.IntN(500)))
+		if size, ok := bigAt[op]; ok {
+			big := c15BigRequest(m, rnd, size, op)
+			ev, err := db.SaveEntity(ctx, big.Name, big.ID, big.Ver, big.Data, big.Create, big.Del, big.Typ, big.Meta)
+			if err != nil {
+				viol("big-data-refused", fmt.Sprintf("valid request with %d bytes of data refused by the database: %v", size, err), nil)
+			} else {
+				log = append(log, fmt.Sprintf("%s (%d bytes of data, direct) -> ok id=%d ver=%d", mdkOpString(big), size, ev.Id, ev.Version))
+				m.apply(big, ev, big.Create)
+				srv.Handler.broadcastJournal() // what RawEditEntity does after a successful save
+				r.Count("rpc.page_budget_sized_entities_written", 1)
+			}
+		}
 		req := g.next(clk.Unix(), false)
 		p := m.predict(req)
 		args := tlmetadata.EditEntitynew{Event: tlmetadata.Event{Id: req.ID, Name: req.Name, EventType: req.Typ, Unused: req.Del, Version: req.Ver, Data: req.Data}}
@@ -251,6 +273,10 @@ func c15RPCRound(r *verifkit.Run, round, nOps, nSubs int) {
 			if int64(len(a.Events)) > a.Limit && !a.Long {
 				viol("journal/limit", fmt.Sprintf("%d events for limit %d", len(a.Events), a.Limit), map[string]any{"subscriber": s})
 			}
+		}
+		if n := len(answers[s]); n > 0 && answers[s][n-1].Err == "" && len(answers[s][n-1].Events) == 0 && answers[s][n-1].From < m.maxVer {
+			a := answers[s][n-1]
+			viol("journal/no-progress", fmt.Sprintf("subscriber %d asked for the journal from version %d (limit %d, return-if-empty) and got an empty answer although version %d exists: a paging reader never gets past this point", s, a.From, a.Limit, m.maxVer), map[string]any{"subscriber": s})
 		}
 		for id, e := range m.ents {
 			if latest[id].Version != e.Ver {
